@@ -50,7 +50,87 @@ func (vc *VC) effectsOf(nodes []ast.Node, info *types.Info, depth int) *Effects 
 			vc.collectEffects(eff, n, info, depth)
 		}
 	}
+	// base variables declared inside the region whose only definition is an allocation denote fresh objects
+	fresh := map[types.Object]bool{}
+	isFresh := func(b types.Object) bool {
+		if v, ok := fresh[b]; ok {
+			return v
+		}
+		defs, allocs := 0, 0
+		for _, n := range nodes {
+			if n == nil {
+				continue
+			}
+			ast.Inspect(n, func(n ast.Node) bool {
+				switch x := n.(type) {
+				case *ast.AssignStmt:
+					for i, l := range x.Lhs {
+						id, ok := l.(*ast.Ident)
+						if !ok || info.ObjectOf(id) != b {
+							continue
+						}
+						defs++
+						if len(x.Rhs) == len(x.Lhs) && x.Tok == token.DEFINE && isAllocExpr(x.Rhs[i], info) {
+							allocs++
+						}
+					}
+				case *ast.ValueSpec:
+					for i, nm := range x.Names {
+						if info.Defs[nm] == b {
+							defs++
+							if i < len(x.Values) && isAllocExpr(x.Values[i], info) {
+								allocs++
+							}
+						}
+					}
+				case *ast.RangeStmt:
+					for _, e := range []ast.Expr{x.Key, x.Value} {
+						if id, ok := e.(*ast.Ident); ok && info.ObjectOf(id) == b {
+							defs += 2
+						}
+					}
+				case *ast.UnaryExpr:
+					if x.Op == token.AND {
+						if id, ok := ast.Unparen(x.X).(*ast.Ident); ok && info.ObjectOf(id) == b {
+							defs += 2
+						}
+					}
+				}
+				return true
+			})
+		}
+		fresh[b] = defs == 1 && allocs == 1
+		return fresh[b]
+	}
+	for _, a := range eff.arrays {
+		for b := range a.bases {
+			if isFresh(b) {
+				delete(a.bases, b)
+				a.freshOnly = true
+			}
+		}
+	}
 	return eff
+}
+
+func isAllocExpr(e ast.Expr, info *types.Info) bool {
+	switch x := ast.Unparen(e).(type) {
+	case *ast.CallExpr:
+		if id, ok := x.Fun.(*ast.Ident); ok {
+			if b, ok := info.ObjectOf(id).(*types.Builtin); ok && (b.Name() == "make" || b.Name() == "new") {
+				return true
+			}
+		}
+	case *ast.UnaryExpr:
+		if x.Op == token.AND {
+			_, ok := ast.Unparen(x.X).(*ast.CompositeLit)
+			return ok
+		}
+	case *ast.CompositeLit:
+		_, ok := info.TypeOf(x).Underlying().(*types.Map)
+		return ok
+	}
+	return false
 }
 
 func baseObjOf(e ast.Expr, info *types.Info) types.Object {
@@ -468,7 +548,12 @@ func (vc *VC) specEffects(eff *Effects, spec *FuncSpec, fn *types.Func, key stri
 		switch m.K {
 		case "sel":
 			// x.f or T.f
-			bt := env.staticType(m.X)
+			var bt types.Type
+			if tn := env.typeNameOf(m.X); tn != nil {
+				bt = tn.Type()
+			} else {
+				bt = env.staticType(m.X)
+			}
 			if bt == nil {
 				eff.all = true
 				continue
@@ -683,13 +768,13 @@ func (vc *VC) loopEnv(s *State, st ast.Stmt, path string, old *State) *SpecEnv {
 	env.scope = fr.info.Scopes[st]
 	env.pos = body.Lbrace
 	// role aliases
-	for _, role := range []string{"$i", "$k", "$v", "$visited"} {
+	for _, role := range []string{"$i", "$k", "$v", "$visited", "$xs"} {
 		if t, ok := s.ghost[role+"@"+path]; ok {
-			env.vars[role] = TV{t, nil}
+			env.vars[role] = TV{t, vc.ghostTypes[role+"@"+path]}
 		}
 	}
 	for k, t := range s.ghost {
-		env.vars[k] = TV{t, nil}
+		env.vars[k] = TV{t, vc.ghostTypes[k]}
 	}
 	// parameters of the top function keep their entry values? No: loop invariants see current values.
 	return env
@@ -810,6 +895,8 @@ func (vc *VC) execRange(s *State, x *ast.RangeStmt, label string) {
 		eff.vars[vv] = true
 	}
 	iName := "$i@" + path
+	s.ghost["$xs@"+path] = coll
+	vc.ghostTypes["$xs@"+path] = xt
 	switch u := xt.Underlying().(type) {
 	case *types.Slice, *types.Array, *types.Basic:
 		var n *Term
@@ -832,6 +919,7 @@ func (vc *VC) execRange(s *State, x *ast.RangeStmt, label string) {
 		}
 		n = s.name("n", n)
 		s.ghost[iName] = IntLit(0)
+		vc.ghostTypes[iName] = types.Typ[types.Int]
 		bound := func(st *State) []*Term {
 			i := st.ghost[iName]
 			return []*Term{And(Le(IntLit(0), i), Le(i, n))}
